@@ -8,6 +8,7 @@ applied to every element of the domain product.
 from __future__ import annotations
 
 import itertools
+import json
 from collections import Counter
 
 from vlib import eql_engine as G
@@ -32,7 +33,7 @@ ANCHORS = ["refinement", "alternative_or_next", "ExceptIf._evaluate__", "Alterna
 
 
 def plan(tier):
-    return {"cases": 3000 if tier == "quick" else 80000, "shards": 16, "case_timeout": 30, "shard_timeout": 3000,
+    return {"cases": 8000 if tier == "quick" else 80000, "shards": 16, "case_timeout": 30, "shard_timeout": 3000,
             "min_nontrivial": 100,
             "min_counters": {"instances_compared": 5000, "kind:ref": 300, "kind:alt": 300, "kind:next": 300,
                              "bindings_interpreted": 5000}}
@@ -77,8 +78,10 @@ def gen(rng, tier, ctx):
         else:
             rule["cond"] = ["and", join, rule["cond"]]      # the comparison binds both variables first
         # conclusions that use different sets of variables
+        narrow = rng.random() < 0.3        # every conclusion uses fewer variables than the conditions bind
+
         def mark(r):
-            r["concl"] = rng.choice(["xy", "xy", "x"])
+            r["concl"] = "x" if narrow else rng.choice(["xy", "xy", "x"])
             for _, ch in r["children"]:
                 mark(ch)
         mark(rule)
@@ -420,4 +423,7 @@ def witnesses():
         "id": "r0", "cond": ["and", ["cmp", "<", ["attr", ["var", "x"], "a"], ["lit", 0]],
                              ["cmp", "==", ["attr", ["var", "x"], "b"], ["attr", ["var", "y"], "a"]]], "children": [
             ["alt", {"id": "r1", "cond": base, "children": []}]]}}
+    # two refinements of one rule over two variables whose conclusions use only the first variable: the inner
+    # selector remembered a conclusion that the outer refinement then overrode
+    w["overridden-conclusion-remembered"] = json.loads('{"world": [{"cls": "Q", "a": 0, "b": 0, "items": [2, 2], "kids": [1, 4], "ref": 1, "d": {"k": 0}, "name": "o0", "f": "0.0", "fs": [1, 2]}, {"cls": "P", "a": 2, "b": 2, "items": [], "kids": [2], "ref": 1, "d": {"k": 2}, "name": "o1", "f": "0.0", "fs": []}, {"cls": "Q", "a": 1, "b": 1, "items": [1], "kids": [0, 0], "ref": null, "d": {"k": 2}, "name": "o2", "f": "0.0", "fs": [0, 1, 2]}, {"cls": "P", "a": 2, "b": 1, "items": [], "kids": [], "ref": 0, "d": {"k": 2}, "name": "o3", "f": "0.0", "fs": [0, 2]}, {"cls": "P", "a": 2, "b": 0, "items": [1], "kids": [], "ref": 1, "d": {"k": 0}, "name": "o4", "f": "0.0", "fs": [2]}], "vars": [{"name": "x", "type": "P", "dom": [3, 1, 2], "kind": "list"}, {"name": "y", "type": "P", "dom": [4, 1], "kind": "gen"}], "rule": {"id": "r0", "cond": ["and", ["cmp", "!=", ["attr", ["var", "x"], "b"], ["attr", ["var", "y"], "a"]], ["cmp", "<=", ["attr", ["var", "x"], "a"], ["lit", 2]]], "children": [["ref", {"id": "r1", "cond": ["contains", ["attr", ["var", "y"], "items"], ["lit", 1]], "children": [], "concl": "x"}], ["ref", {"id": "r3", "cond": ["cmp", "<=", ["attr", ["var", "x"], "a"], ["lit", 1]], "children": [], "concl": "x"}]], "concl": "xy"}}')
     return w
